@@ -19,10 +19,24 @@ class Reject(Exception):
 
 
 class Notes:
-    def __init__(self):
+    def __init__(self, null_policy=None):
         self.unspec = []
         self.either = []
         self.rules = set()
+        # The statement is silent about a null child over an existing value.  With a
+        # policy the model commits to one of the two reasonable readings ('keep' the
+        # parent value / 'replace' it by null, which evaluation then drops) and records
+        # that it did, so that a monitor can accept either reading but nothing else.
+        self.null_policy = null_policy
+        self.null_used = False
+
+    def null_over(self, dst, what):
+        if self.null_policy is None:
+            self.u('null child over ' + what)
+            return clone(dst) if what != 'a scalar' else None
+        self.null_used = True
+        pol = self.null_policy[what] if isinstance(self.null_policy, dict) else self.null_policy
+        return clone(dst) if pol == 'keep' else None
 
     def u(self, why):
         self.unspec.append(why)
@@ -32,6 +46,16 @@ class Notes:
 
     def r(self, rule):
         self.rules.add(rule)
+
+
+def null_policies():
+    """All readings of "null child over an existing scalar / map / list" (keep it or replace it by null)."""
+    out = []
+    for sc in ('replace', 'keep'):
+        for mp in ('keep', 'replace'):
+            for ls in ('keep', 'replace'):
+                out.append({'a scalar': sc, 'a map': mp, 'a list': ls})
+    return out
 
 
 DIRECTIVE_KEYS = ('$delete', '$replace', '$match', '$value', '$invert', '$required')
@@ -81,8 +105,7 @@ def merge(dst, src, notes):
         return clone(src)
     # scalar parent
     if src is None:
-        notes.u('null child over a scalar')
-        return None
+        return notes.null_over(dst, 'a scalar')
     if not isinstance(src, (dict, list)):
         if seq(dst, src):
             notes.r('reject:same-scalar')
@@ -99,8 +122,7 @@ def merge_map(dst, src, notes):
     if isinstance(src, dict):
         return merge_map_map(dst, src, notes)
     if src is None:
-        notes.u('null child over a map')
-        return clone(dst)
+        return notes.null_over(dst, 'a map')
     if len(dst) == 0:
         notes.r('over-empty-map')
         return clone(src)
@@ -140,8 +162,7 @@ def merge_list(dst, src, notes):
     if isinstance(src, list):
         return merge_list_list(dst, src, notes)
     if src is None:
-        notes.u('null child over a list')
-        return clone(dst)
+        return notes.null_over(dst, 'a list')
     notes.r('reject:scalar-or-map-over-list')
     raise Reject('scalar or map over a list')
 
